@@ -554,3 +554,20 @@ Proof.
   intros Hb. unfold balanced. rewrite visit_all_owned by assumption.
   apply forallb_forall. intros c _. apply Nat.eqb_refl.
 Qed.
+
+(** Expected outcome of the probes' end-to-end experiments, as count vectors
+    [holder :: leaf 0 :: ... :: leaf (k-1)] of [Drop] calls after [collect_cycles()].
+    A leaf the value does not own (a [Weak] target, an identity used by a user value) is only
+    held by the probe's external handle and dies when that handle is dropped. *)
+Definition e2e_expect (k : nat) (v : value) : list nat :=
+  let b := if balanced k v then 1 else 0 in
+  b :: map (fun c => if count_occ Nat.eq_dec (owned v) c =? 0 then 1 else b) (seq 0 k).
+
+(** Same graph, but the first owned leaf [j] keeps an external handle during the collection:
+    [j :: holder :: leaves]; nothing reachable from [j] - i.e. nothing at all - may be
+    reclaimed.  [[]] when the value owns no [Cc]. *)
+Definition keep_expect (k : nat) (v : value) : list nat :=
+  match owned v with
+  | [] => []
+  | j :: _ => j :: 0 :: map (fun c => if count_occ Nat.eq_dec (owned v) c =? 0 then 1 else 0) (seq 0 k)
+  end.
